@@ -636,7 +636,7 @@ class _Walker:
                         and not (self.is_extent(n.left) and self.is_extent(n.comparators[0])):
                     self.an.report(self.f, n, f'`{src(n)[:70]}` orders a row quantity against a '
                                    f'column quantity')
-            elif isinstance(n, ast.Compare) and len(n.ops) == 2 and \
+            elif isinstance(n, ast.Compare) and len(n.ops) >= 2 and \
                     all(isinstance(o, (ast.Lt, ast.LtE, ast.Gt, ast.GtE)) for o in n.ops):
                 ks = [scalar(self.kind(x, env)) for x in [n.left] + n.comparators]
                 self.an.n_sinks += 1
